@@ -44,6 +44,7 @@ static bool failed;
 static char scen[VH_TEXT];
 static char streamdesc[VH_TEXT];
 static int yield_k; /* how many times capture commands yield before exiting */
+static bool scribble; /* capture commands dirty the whole scratch area before they exit */
 
 static void viol(const char *key, const char *fmt, ...)
 {
@@ -117,6 +118,10 @@ static pt_state_t capture(console_t *c)
 					     d->argv[i], c->argv[i]);
 		}
 	}
+	/* commands may keep state in the scratch buffers once they have parsed their arguments (console.h):
+	 * leave the whole scratch area dirty, the console has to present a clean line to the next command */
+	if (scribble)
+		memset(&c->scratch, 0xEE, sizeof(c->scratch));
 	PT_END();
 }
 
@@ -445,7 +450,8 @@ static void deliver(const unsigned char *s, int n, int mode)
 }
 
 /* ---- workloads ---- */
-static const char *const std_names[] = { "a", "aa", "cap", "x1" };
+static const char *const std_names[] = { "a", "aa", "cap", "x1", "Zap", "GPIO" };
+#define NSTD 6
 
 static void exhaustive(void)
 {
@@ -477,6 +483,7 @@ static void exhaustive(void)
 		vh_case_key(key);
 		vh_case_replay("--extra exh --cases %d --only-case %" PRIu64, L, idx);
 		yield_k = 0;
+		scribble = (idx & 1) != 0;
 		new_console(std_names, 2);
 		deliver(s, L, 0);
 		vh_evaluations++;
@@ -499,7 +506,8 @@ static void random_case(long long c)
 	vh_case_replay("--extra rand --only-case %lld", c);
 	int mode = (int)(c % 3);
 	yield_k = vh_below(&r, 3) == 0 ? 1 + (int)vh_below(&r, 3) : 0;
-	new_console(std_names, 4);
+	scribble = vh_below(&r, 2);
+	new_console(std_names, NSTD);
 	static const char bare[] = "abcx019-_.";
 	unsigned char s[1400];
 	int n = 0;
@@ -515,7 +523,7 @@ static void random_case(long long c)
 			near_limit = true;
 		/* first token: a registered name most of the time */
 		int len = 0;
-		const char *first = vh_below(&r, 4) ? std_names[vh_below(&r, 4)] : "zz";
+		const char *first = vh_below(&r, 4) ? std_names[vh_below(&r, NSTD)] : "zz";
 		if (target > 0) {
 			for (const char *p = first; *p && len < target; p++, len++)
 				s[n++] = (unsigned char)*p;
@@ -607,11 +615,12 @@ static void reg_case(long long c)
 	if (n > NCMD)
 		n = NCMD;
 	yield_k = 0;
+	scribble = vh_below(&r, 2);
 	new_console(NULL, 0);
 	/* distinct names, random order: permutation of a pool that sorts in every which way vs the built-ins echo/help */
 	static const char *const pool[] = { "a", "b", "ab", "ba", "aa", "z", "zz", "f", "g", "ec", "echo2", "hel", "helpx", "i", "d", "e1",
-					    "h1", "m", "n", "o", "p", "q", "r", "s", "t", "u", "v", "w", "x", "y", "k", "l", "c", "j", "ca",
-					    "cb", "cc", "da", "db", "dc" };
+					    "h1", "m", "n", "o", "p", "q", "r", "s", "t", "u", "v", "w", "x", "y", "Zap", "GPIO", "Reboot", "Echo",
+					    "Help", "cb", "cc", "da", "_x", "9" };
 	int order[NCMD];
 	for (int i = 0; i < NCMD; i++)
 		order[i] = i;
